@@ -36,7 +36,7 @@ class Job:
                  unwind=None, label="proof", defines=None, min_post=1, min_lis=0,
                  timeout=900, tiers=("quick", "thorough"), solver=None, note="",
                  replay=None, objbits=None, extra_cbmc=(), fallback=True, maxw=None,
-                 expect_fail=(), src=None, unwindset=None, cost=10, family=None, optional=False, canary_from=None, split=0, loop_contracts=True, drop_checks=(), plain_loop_contracts=False, fallback_plain=None, tdefs=None, ttimeout=None, tunwind=None, remove_bodies=()):
+                 expect_fail=(), src=None, unwindset=None, cost=10, family=None, optional=False, canary_from=None, split=0, loop_contracts=True, drop_checks=(), plain_loop_contracts=False, fallback_plain=None, tdefs=None, ttimeout=None, tunwind=None, remove_bodies=(), replace_calls=()):
         self.name = name; self.driver = driver; self.entry = entry
         self.enforce = enforce; self.replace = list(replace); self.mode = mode
         self.unwind = unwind; self.label = label; self.defines = dict(defines or {})
@@ -46,6 +46,7 @@ class Job:
         self.maxw = maxw; self.expect_fail = list(expect_fail); self.src = src
         self.unwindset = unwindset; self.cost = cost; self.family = family; self.optional = optional; self.canary_from = canary_from; self.split = split; self.loop_contracts = loop_contracts; self.drop_checks = tuple(drop_checks); self.plain_loop_contracts = plain_loop_contracts; self.fallback_plain = fallback_plain
         self.tdefs = dict(tdefs or {}); self.ttimeout = ttimeout; self.tunwind = tunwind
+        self.replace_calls = list(replace_calls)   # plain mode: calls of f redirected to an executable contract g (goto-instrument --replace-calls f:g); f is checked against the same contract by its own job
         self.remove_bodies = list(remove_bodies)   # plain mode: callees whose bodies are dropped (nondeterministic result, no side effect: an ASSUMPTION listed in the evidence)
 
     def for_tier(self, tier):
@@ -230,7 +231,7 @@ def execute(job, tier, builddir, maxw, solver, log):
     res = {"job": job.name, "function": (job.enforce or job.entry).split("/")[0], "mode": job.mode, "label": job.label,
            "solver": solver, "maxw": maxw, "status": "ok", "failed": [], "internal_failed": [],
            "obligations": 0, "discharged": 0, "seconds": 0.0, "canary": None, "note": job.note,
-           "replaced": job.replace, "unwind": job.unwind, "errors": [], "removed_bodies": list(getattr(job, "remove_bodies", []))}
+           "replaced": job.replace + ["%s (calls redirected to the executable contract %s)" % tuple(x.split(":")) for x in getattr(job, "replace_calls", [])], "unwind": job.unwind, "errors": [], "removed_bodies": list(getattr(job, "remove_bodies", []))}
     base = os.path.join(builddir, job.name)
     t0 = time.time()
 
@@ -247,6 +248,16 @@ def execute(job, tier, builddir, maxw, solver, log):
                 res["errors"].append("goto-instrument failed: " + (out + err)[-3000:])
                 return None
             return igb
+        if job.replace_calls and job.mode != "contract":
+            cgb = base + suffix + ".rc.gb"
+            cmdc = ["goto-instrument"]
+            for fg in job.replace_calls:
+                cmdc += ["--replace-calls", fg]
+            rc, out, err, secs, to = run(cmdc + [gb, cgb], 300)
+            if rc != 0 or not os.path.exists(cgb):
+                res["errors"].append("goto-instrument --replace-calls failed: " + (out + err)[-2000:])
+                return None
+            gb = cgb
         if job.remove_bodies and job.mode != "contract":
             rgb = base + suffix + ".r.gb"
             cmdr = ["goto-instrument"]
